@@ -33,10 +33,10 @@ def rerun(ctx, case_lines):
     return bool(r[0][1])
 
 
-def simulate(ctx, cfg, num, depth, out_name):
+def simulate(ctx, cfg, num, depth, out_name, aril=0):
     """tlc -simulate on TagExprGen: every visited tree beyond the exhaustive depth is printed as an @@CASE line."""
     r = lib.tlc(ctx, "TagExprGen", cfg, workers=1, timeout=1500, simulate="num=%d" % num, depth=depth,
-                tag="sim_" + cfg.replace(".cfg", ""))
+                tag="sim%d_" % aril + cfg.replace(".cfg", ""), extra=["-aril", str(aril)])
     if not r.ok:
         raise lib.Infra("simulation %s failed (rc=%d):\n%s" % (cfg, r.rc, "\n".join(
             l for l in r.out.splitlines() if "@@CASE" not in l)[-3000:]))
@@ -85,19 +85,39 @@ def run(ctx):
     tier = "quick" if q else "thorough"
     # 1. the specification: printer / parser / evaluator theorems on every enumerated tree, style and value
     # 2. cases.  (the four TLC runs are independent; they run side by side: one 4-worker + three 1-worker JVMs)
+    nsim = 1 if q else 4                       # thorough: four seeded walks side by side (-seed ctx.seed -aril k)
     jobs = [
+        lambda: lib.gen_cases(ctx, "TagExprGen", "TagExprGen_%s.cfg" % tier, out_name="cases.ndjson", timeout=2400),
         lambda: lib.spec_check(ctx, "TagExpr", "TagExpr_mc.cfg", workers=4, timeout=1500,
                                note="all sorted trees of depth<=3 (small alphabet) x 9 styles x field values: RoundTrip, "
                                     "StyleFree, SortSound, ChainFlat; documented examples as ASSUME"),
         lambda: lib.spec_check(ctx, "TagExpr", "TagExpr_mc2.cfg", workers=1, timeout=1500,
                                note="all sorted trees of depth<=2 over every operator, len/regexp/in and the full leaf alphabet"),
-        lambda: lib.gen_cases(ctx, "TagExprGen", "TagExprGen_%s.cfg" % tier, out_name="cases.ndjson", timeout=2400),
-        lambda: simulate(ctx, "TagExprGen_sim_%s.cfg" % tier, 110 if q else 4000, 8, "sim.ndjson"),
     ]
-    with concurrent.futures.ThreadPoolExecutor(max_workers=4) as ex:
+    if not q:
+        jobs.append(lambda: lib.spec_check(ctx, "TagExpr", "TagExpr_mc3.cfg", workers=4, timeout=2400,
+                                           note="every boolean-sorted tree with <=3 binary operators over all 13 operators"))
+    with concurrent.futures.ThreadPoolExecutor(max_workers=4 if q else 8) as ex:
         futs = [ex.submit(j) for j in jobs]
+        sfuts = [ex.submit(simulate, ctx, "TagExprGen_sim_%s.cfg" % tier, 110 if q else 250, 8, "sim%d.ndjson" % k, k)
+                 for k in range(nsim)]
         done = [f.result() for f in futs]          # re-raises lib.Infra
-    (cases, n), (sim, ns) = done[2], done[3]
+        sdone = [f.result() for f in sfuts]
+    cases, n = done[0]
+    # merge the simulated case files (distinct cases only)
+    sim = os.path.join(ctx.scratch, "sim.ndjson")
+    seen, ns = set(), 0
+    with open(sim, "w") as out_f:
+        for path, _ in sdone:
+            with open(path) as f:
+                for line in f:
+                    c = json.loads(line)
+                    key = (c["expr"], json.dumps(c["val"], sort_keys=True))
+                    if key not in seen:
+                        seen.add(key)
+                        ns += 1
+                        c["id"] = ns
+                        out_f.write(json.dumps(c, separators=(",", ":")) + "\n")
     # 3./4. run on the real validator, validate
     results, traces_all, ran = [], [], 0
     for cf, nm, k in ((cases, "traces", n), (sim, "straces", ns)):
